@@ -135,5 +135,40 @@ def run(ctx):
             corr.oracle_failures.append((cid, 'name fields are not the bytes up to the first NUL (occupied player #%d: tag/name/code decoded as %s, the field bytes say %s)'
                                          % (k, [bytes.fromhex(x).decode('utf-8', 'replace') for x in (got[k] if k < len(got) else ())],
                                             [bytes.fromhex(x).decode('utf-8') for x in (want[k] if k < len(want) else ())]), info))
+    # ---- an invalid Shift-JIS sequence BEFORE the first NUL of a name field of an occupied port: reading the replay must fail (full read, skip-frames
+    # read, and the same block after the NUL must be harmless)
+    bad_seqs = [b'\xff', b'\xa0', b'\xfd', b'\xfe', b'\x81', b'A\x81', b'\x81\x00'[:1] + b'', b'\xe0', b'ab\xfc\xfc']
+    icases = []; iinfo = {}
+    for i in range(36 if thorough else 18):
+        r = synth.gen_wf(rng, rng.choice([(3, 9), (3, 10), (3, 12), (3, 16), (1, 3), (2, 0)]), nframes=rng.choice([0, 1]), gecko=0, end='single')
+        b = bytearray(synth.emit(r))
+        so = 15 + 2 + 3 * len(synth.payload_table(r)) + 1
+        p_ = rng.choice([pp for pp, _ in r.ports])
+        fields = [('name tag', 352 + 16 * p_, 16)] + ([('netplay name', 420 + 31 * p_, 31), ('connect code', 544 + 10 * p_, 10)] if synth.gte(r.ver, 3, 9) else [])
+        name, off, n = fields[i % len(fields)]
+        seq = bad_seqs[i % len(bad_seqs)]
+        if seq in (b'\x81', b'A\x81', b'\xe0'):
+            body = seq + b'\0' + bytes(n - len(seq) - 1)            # a lead byte followed by the NUL: incomplete
+        else:
+            body = (seq + b'\0' * n)[:n]
+        after = bytearray(b)
+        b[so + off:so + off + n] = body
+        after[so + off:so + off + n] = (b'ok\0' + seq + b'\0' * n)[:n]          # the same bytes after the first NUL: ignored
+        for o in ('-', 's'):
+            cid = 'bad%d_%s' % (i, o.replace('-', 'n'))
+            icases.append((cid, [bytes(b).hex(), o, '-', '-'])); iinfo[cid] = (name, seq, r.ver, p_, True)
+        cid = 'aft%d' % i
+        icases.append((cid, [bytes(after).hex(), '-', '-', '-'])); iinfo[cid] = (name, seq, r.ver, p_, False)
+    iimpl, _ = both_modes(ctx, 'read', icases, corr, parallel=8)
+    for cid, f in icases:
+        name, seq, ver, p_, bad = iinfo[cid]
+        corr.seen(f[0] + f[1]); corr.count('invalid_name_field_replays' if bad else 'invalid_bytes_after_nul_replays')
+        out = iimpl.get(cid) or ['?']
+        info = {'mode': 'read', 'fields': f, 'replay_hex': f[0], 'rerun': 'pvh read <file: x <replay_hex> %s - ->' % f[1]}
+        if bad and not out[0].startswith('ERR'):
+            corr.oracle_failures.append((cid, 'version %d.%d: the %s of port %d holds the invalid Shift-JIS sequence %s before its first NUL, but reading (opts %s) gives %s instead of an error'
+                                         % (ver[0], ver[1], name, p_, seq.hex(), f[1], out[0]), info))
+        if not bad and out[0] != 'OK':
+            corr.oracle_failures.append((cid, 'version %d.%d: bytes %s AFTER the first NUL of the %s of port %d make reading fail: %s' % (ver[0], ver[1], seq.hex(), name, p_, out[:2]), info))
     corr.sample({'sjis': cases[5]}); corr.sample({'sjis': cases[-4]}); corr.sample({'norm': ncases[15]})
     return corr
